@@ -60,6 +60,7 @@ type c05Form struct {
 	State        *string    `json:"state,omitempty"`
 	Vp           *[]c05Pres `json:"vp,omitempty"`
 	UnknownState bool       `json:"unknownState,omitempty"`
+	WrongTenant  bool       `json:"wrongTenant,omitempty"` // the session of the state belongs to another subject of this node
 	// request object fetch ("reqobj"), landing page ("landing"), DPoP proof validation ("dpop")
 	ID       string `json:"id,omitempty"`
 	Subject  string `json:"subject,omitempty"`
@@ -217,6 +218,10 @@ func c05RunForms(w *storage.VerifC05Writer, base *Wrapper, op c05FormsOp) {
 			storage.WithTTL(24*time.Hour)); err != nil {
 			panic(err)
 		}
+	}
+	if err := wr.oauthClientStateStore().Put("tenantB", OAuthSession{OwnSubject: &holderSubjectID, RedirectURI: "https://example.com/cb", ClientState: "tenantB"},
+		storage.WithTTL(24*time.Hour)); err != nil {
+		panic(err)
 	}
 	var answers, callSeqs []string
 	var calls []string
@@ -484,9 +489,12 @@ func c05GenForms(rng *rand.Rand, idx int, backend string) c05FormsOp {
 			f.Dpop = c05Pick(rng, "", "", "", "", "bad", "good")
 		case x < 15: // authorization response
 			f.T = "response"
-			f.State = c05OptStr(rng, 6, "clientA", "clientA", "clientA", "clientB", "unknown-state")
+			f.State = c05OptStr(rng, 6, "clientA", "clientA", "clientA", "clientB", "unknown-state", "tenantB")
 			if f.State != nil && *f.State == "unknown-state" {
 				f.UnknownState = true
+			}
+			if f.State != nil && *f.State == "tenantB" {
+				f.WrongTenant = true
 			}
 			if rng.Intn(15) > 0 {
 				var ps []c05Pres
